@@ -302,6 +302,29 @@ def validate_native(E, paths, lv, conc, out, nmax=2, big=False):
             out["result"] = "violation"
             out["cex"] = res
             break
+    if out.get("result") != "violation":
+        # paths on which the symbolic run gave up (a library call the proxies cannot follow): the values that lead there are
+        # exactly the ones no solver verdict covers, so one native run per such path (up to nmax) inside its path condition
+        na = 0
+        for pth in paths:
+            if pth.kind != "abort" or na >= max(1, nmax):
+                continue
+            r, mdl = E.query(pth, z3.BoolVal(True), extra=[z3.And(v >= 1, v <= 40) for (_, _, v) in lv.vars])
+            if r != "sat":
+                r, mdl = E.query(pth, z3.BoolVal(True))
+            if r != "sat":
+                continue
+            na += 1
+            try:
+                res = conc(lv.model_values(mdl))
+            except Exception:  # noqa
+                continue
+            done += 1
+            if isinstance(res, dict):
+                res["what"] = "native run differs from the reference on values for which the symbolic run gave up (%s): %s" % (str(pth.value)[:80], res.get("what"))
+                out["result"] = "violation"
+                out["cex"] = res
+                break
     if done == 0 and out.get("result") != "violation":
         # no explored path gave a model (every path aborted, or the solver gave up): one native run on ordinary values, so that a
         # skeleton is never left without any comparison of the real code with the reference
